@@ -99,6 +99,39 @@ def check_glob(args):
     return {"glob": glob, "fails": fails}
 
 
+def check_table(globs):
+    """An [[annotations]] table with several globs applies exactly when one of them matches: the language of the
+    compiled alternation is sandwiched between the unions of the narrow and of the wide readings."""
+    import z3
+    from pyvc import rx
+    from reuse.global_licensing import AnnotationsItem
+    item = AnnotationsItem(paths=set(globs))
+    pat = item._paths_regex
+    try:
+        code = rx.Lang(pat).match_lang()
+    except rx.RxUnsupported as e:
+        return {"glob": list(globs), "error": str(e)}
+    narrow = rx.union(spec_langs(g, False)[0] for g in globs)
+    wide = rx.union(spec_langs(g, False)[1] for g in globs)
+    fails = []
+    x = z3.String("path")
+    for name, a, b in (("missed", narrow, code), ("overmatch", code, wide)):
+        s = z3.Solver()
+        s.set("timeout", TIMEOUT_MS[0])
+        s.add(z3.InRe(x, a), z3.Not(z3.InRe(x, b)))
+        r = s.check()
+        if r == z3.sat:
+            w = s.model()[x]
+            w = w.as_string() if w is not None else ""
+            w = re.sub(r"\\u\{([0-9a-fA-F]+)\}", lambda m: chr(int(m.group(1), 16)), w)
+            real = bool(item.matches(w))
+            fails.append({"glob": list(globs), "kind": name, "path": w, "real_matches": real, "regex": pat.pattern,
+                          "replayed": real != (name == "missed")})
+        elif r == z3.unknown:
+            fails.append({"glob": list(globs), "kind": name, "unknown": True})
+    return {"glob": list(globs), "fails": fails}
+
+
 def run(ctx):
     from pyvc.driver import Bounded
     maxlen = 6 if ctx.tier == "thorough" else 4
@@ -123,9 +156,29 @@ def run(ctx):
             failures.append(f)
     if errors:
         raise RuntimeError(f"regex outside the translated fragment: {errors[:3]}")
-    ctx.samples.append({"globs": len(globs), "inclusion_queries": decided, "example": check_glob(("**/*.py", False))})
+    # tables with two and three globs (grouping / anchoring of the alternation, independent of set iteration order)
+    short = ["".join(p) for n in range(1, 3) for p in itertools.product(ALPHABET, repeat=n)]
+    tables = [t for t in itertools.combinations(short, 2)]
+    if ctx.tier != "thorough":
+        tables = tables[::3]
+    tables += [("*.py", "docs/**", "README"), ("a", "b", "c"), ("src/*", "**/x", "\\*")]
+    with mp.get_context("fork").Pool(min(16, os.cpu_count() or 4)) as pool:
+        tres = pool.map(check_table, tables, chunksize=8)
+    for r in tres:
+        if "error" in r:
+            raise RuntimeError(f"regex outside the translated fragment: {r}")
+        decided += 2
+        for f in r["fails"]:
+            if f.get("unknown"):
+                TIMEOUT_MS[0] = 60000
+                f2 = [x for x in check_table(tuple(r["glob"]))["fails"] if x["kind"] == f["kind"]]
+                TIMEOUT_MS[0] = 20000
+                failures += f2
+            else:
+                failures.append(f)
+    ctx.samples.append({"globs": len(globs), "tables": len(tables), "inclusion_queries": decided, "example": check_glob(("**/*.py", False))})
     ctx.bounded.append(Bounded("glob-language-sandwich", f"every glob over {ALPHABET} up to length {maxlen}; all paths (unbounded) per glob",
-                               len(globs) * 2, failures, "language inclusion decided by z3's regex solver on the real compiled matcher"))
+                               decided, failures, "language inclusion decided by z3's regex solver on the real compiled matcher"))
     ctx.trust("z3 sequence/regex theory; pyvc.rx translation of Python re syntax (literals, classes, star, groups, ^ $)")
     ctx.assume("Python re implements the regular language denoted by the pattern for this fragment (no backreferences/lookaround here)")
     ctx.notes.append("paths range over ALL strings (including newlines); code points above U+2FFFF are outside the solver alphabet")
